@@ -157,6 +157,8 @@ type Engine struct {
 	knownTags    map[string]bool // assertion messages that are known findings: do not stop, do not count
 	knownHit     map[string]*Violation
 	timeNow      *Term
+	noBlockMsg   string // while set, a call that blocks forever is a violation (vMustNotBlock)
+	clockSkew    uint64 // ns added to the concrete clock by timers that fired while waiting
 	nowSeq       int
 	stubOn       map[string]bool
 	rttSamples   int
@@ -180,6 +182,7 @@ type ghostState struct {
 	timerFn    FuncV
 	closedCh   bool
 	resets     int
+	waiters    int // sync.Cond: goroutines parked in Wait (set by the harness)
 }
 
 func (e *Engine) fail(format string, args ...interface{}) {
@@ -230,6 +233,8 @@ func (e *Engine) resetPath(prefix []decision) {
 	e.depth = 0
 	e.goCalls = nil
 	e.timeNow = nil
+	e.noBlockMsg = ""
+	e.clockSkew = 0
 	e.nowSeq, e.crcSeq, e.rndSeq, e.bitsSeq = 0, 0, 0, 0
 	e.pathVars = e.pathVars[:0]
 	e.crcMemo = nil
@@ -688,6 +693,29 @@ func (e *Engine) reportViolation(kind, msg string, model map[*Term]uint64) {
 	}
 	e.violations = append(e.violations, v)
 	panic(pathEnd{kind: "violation", msg: msg})
+}
+
+// block ends the path at an operation that can never proceed in the sequential execution.
+// Inside a vMustNotBlock section this is a violation (the native replay confirms it as a hang).
+func (e *Engine) block(msg string) {
+	if e.noBlockMsg != "" {
+		if e.noFork > 0 {
+			panic(mergeAbort{"block inside merge"})
+		}
+		_, m := e.query(e.ts.True, e.modelTermsOr())
+		e.reportViolation("blocked", e.noBlockMsg, m)
+	}
+	panic(pathEnd{kind: "blocked", msg: msg})
+}
+
+// fireTimer lets the armed timer behind ch expire: the clock moves on by its duration.
+func (e *Engine) fireTimer(ch *ChanObj) {
+	g := ch.timer
+	g.timerArmed = false
+	if g.timerDur != nil && g.timerDur.IsConst() && int64(g.timerDur.val) > 0 {
+		e.clockSkew += g.timerDur.val
+	}
+	ch.buf = append(ch.buf, e.timeV(e.now()))
 }
 
 // vc: bad is the condition under which the program panics here.
